@@ -32,6 +32,18 @@ def gtInf (a : Rat) : Option Rat → Bool
 def eqInf (a : Rat) : Option Rat → Bool
   | none => false
   | some b => decide (a = b)
+/-- a possibly infinite number (`none` = `float("inf")`) against another one, and against a running extremum that is `None` before the
+    first element -/
+def ltE : Option Rat → Option Rat → Bool
+  | some a, some b => decide (a < b)
+  | some _, none => true
+  | none, _ => false
+def ltOptE (a : Option Rat) : Option (Option Rat) → Bool
+  | none => false
+  | some b => ltE a b
+def eqOptE (a : Option Rat) : Option (Option Rat) → Bool
+  | none => false
+  | some b => a == b
 
 def welfareLoop : (Option Rat) → (List Nat) → List (Nat × Rat) → ((Option Rat) × (List Nat))
   | best, arg, [] => (best, arg)
